@@ -52,7 +52,7 @@ def impl_modes(c):
     plain = es.run_script(c, mode="plain")
     o["same_as_plain"] = view(o) == view(plain) and o["status"] == plain["status"]
     o["reset_same"] = None
-    if stateless(c) and o["status"] == 0 and c["end"] is not None:
+    if stateless(c) and o["status"] == 0 and plain["status"] == 0:
         o["reset_same"] = reset_replay(c)
     o["reset_source_same"] = reset_with_source(c) if len(json.dumps(c["pre"])) % 3 == 0 else None
     o["inrun"] = inrun_control(c) if len(json.dumps(c["pre"])) % 3 == 1 else None
@@ -61,10 +61,12 @@ def impl_modes(c):
 
 
 def reset_replay(c):
+    """run; reset; run a few deliveries and stop (pause + step); reset; run.  The first and the last run must deliver
+    the same sequence - also when the horizon is open (auto-termination) and the reset came in the middle of a run."""
     from happysimulator.core.simulation import Simulation
     from happysimulator.core.temporal import Instant
     w = es.build_world(c)
-    sim = Simulation(start_time=Instant(c["start"]), end_time=Instant(c["end"]), entities=list(w.entities))
+    sim = Simulation(entities=list(w.entities), **es.horizon_kwargs(c))
     for ps in c["pre"]:
         sim.schedule(w.mk_event(0, dict(ps["emit"], dt=ps["time"])))
     w.prerun[0] = False
@@ -76,11 +78,25 @@ def reset_replay(c):
         first = [p[:4] for p in pops1 if p[4] == "delivered"]
         n1 = len(w.ulog)
         sim.control.reset()
-        pops2 = []
-        es.instrument_pops(sim, pops2, 5000, w)
-        sim.run()
     except es.Watchdog:
         return None
+    k = len(first) // 2
+    if k >= 1:
+        try:
+            es.instrument_pops(sim, [], 5000, w)
+            sim.control.pause()
+            sim.run()
+            sim.control.step(k)
+            sim.control.reset()
+            del w.ulog[n1:]
+        except es.Watchdog:
+            return [False, first[:6], "watchdog in the partial re-run"]
+    pops2 = []
+    es.instrument_pops(sim, pops2, 5000, w)
+    try:
+        sim.run()
+    except es.Watchdog:
+        return [False, first[:6], "watchdog: the run after reset() does not terminate"]
     second = [p[:4] for p in pops2 if p[4] == "delivered"]
     return [first == second and w.ulog[:n1] == w.ulog[n1:], first[:6], second[:6]]
 
@@ -282,6 +298,20 @@ def gen_session(rng):
     c = es.gen_script(rng, futures=rng.random() < 0.3, max_pre=10)
     c["fuel"] = 300
     c["cmds"] = es.gen_cmds(rng)
+    if c["start"] == 0 and rng.random() < 0.3:
+        # a late epoch (116 days): float seconds no longer resolve single nanoseconds there
+        big = 10_000_000_000_000_000
+        c["start"] = big
+        for ps in c["pre"]:
+            ps["time"] += big
+        if c["end"] is not None:
+            c["end"] += big
+    # time breakpoints are absolute instants: move them with the script's start, and put some of them 0-2 ns after an
+    # instant at which events are scheduled (a delivery just before the breakpoint's time must not trigger it)
+    inst = sorted({ps["time"] for ps in c["pre"]}) or [c["start"]]
+    for cmd in c["cmds"]:
+        if cmd[0] == "bp" and cmd[1] == "time":
+            cmd[2] = rng.choice(inst) + rng.choice([0, 1, 2]) if rng.random() < 0.4 else cmd[2] + c["start"]
     return c
 
 
@@ -351,7 +381,7 @@ def oracle_session(c, o):
             # stops paused must have stopped at a delivery satisfying a breakpoint that is still registered
             if seg and cmd[0] in ("start", "resume") and snap[0] == 1 and not pause_pending and not out \
                     and not any(sat(b, seg[-1]) for b in bps):
-                out.append(dict(clause="a one-shot breakpoint is gone after it fired: the run paused after a delivery that satisfies no registered breakpoint",
+                out.append(dict(clause="a breakpoint pauses the run only after a delivery that satisfies it, and a one-shot breakpoint is gone once it fired: the run paused after a delivery that satisfies no registered breakpoint",
                                 delivery=seg[-1][:5], command=cmd, registered=bps[:4]))
             if seg:
                 bps = [b for b in bps if not (b[3] and sat(b, seg[-1]))]
